@@ -252,14 +252,19 @@ func (ci *ChunkInfo) getChunkCid(rootCid boson.Address) []*PyramidCidNum {
 	return cids
 }
 
-func (ci *ChunkInfo) getCidSort(rootCid, cid boson.Address) int {
+func (ci *ChunkInfo) getCidSort(rootCid, cid boson.Address) (int, bool) {
 	ci.cp.RLock()
 	defer ci.cp.RUnlock()
 	pyramid, err := ci.getPyramid(rootCid)
 	if err != nil {
-		return 0
+		return 0, false
 	}
-	return pyramid.cids[cid.String()].sort
+	// only data chunks have a position in the file's bit vector
+	c, ok := pyramid.cids[cid.String()]
+	if !ok {
+		return 0, false
+	}
+	return c.sort, true
 }
 
 // func (cp *chunkPyramid) updateCidSort(rootCid, cid boson.Address, sort int) {
